@@ -1041,6 +1041,17 @@ func runAll(cases []acase) []result {
 			}(i)
 		}
 		wg.Wait()
+		// a harness failure (a protocol wait timed out: the implementation's locking or clock discipline is not
+		// the one the harness drives) ends the run at the first case that shows it: the remaining batches would
+		// each wait out the same 20 s
+		for i := lo; i < hi; i++ {
+			if out[i].infra != "" && out[i].infra != swallowed {
+				for j := hi; j < len(cases); j++ {
+					out[j].infra = out[i].infra + " (not run: an earlier case already failed this way)"
+				}
+				return out
+			}
+		}
 	}
 	return out
 }
